@@ -13,6 +13,32 @@ M = tables.MODEL
 MP = "nessai.utils.multiprocessing"
 
 
+def wrapper_table(ctx, clause):
+    """function / pool-wrapper / vectorisation-flag / probe table of the three batch evaluators: what the pool workers
+    evaluate is what the serial branch evaluates (shared with C14.4: otherwise enabling a pool changes the values)."""
+    prog = ctx.prog
+    # ---- C10.4 function / wrapper / flag table ---------------------------------------
+    table = {
+        "batch_evaluate_log_likelihood": ("self.log_likelihood", "log_likelihood_wrapper", "self.allow_vectorised and self.vectorised_likelihood", "log_likelihood", "vectorised_likelihood"),
+        "batch_evaluate_log_prior": ("self.log_prior", "log_prior_wrapper", "self.allow_vectorised_prior and self.vectorised_prior", "log_prior", "vectorised_prior"),
+        "batch_evaluate_log_prior_unit_hypercube": ("self.log_prior_unit_hypercube", "log_prior_unit_hypercube_wrapper", "self.allow_vectorised_prior and self.vectorised_prior_unit_hypercube", "log_prior_unit_hypercube", "vectorised_prior_unit_hypercube"),
+    }
+    for name, (fn_, wrap, flag, meth, prop) in table.items():
+        f = ctx.fn(f"{M}.{name}")
+        c = FA(f).find_calls("batch_evaluate_function")[0][1]
+        kw = {k.arg: k.value for k in c.keywords}
+        ctx.ob("R-SIB", clause, f, f"evaluates {fn_} with its own wrapper {wrap} and its own vectorisation flag", src(c.args[0]) == fn_ and "func_wrapper" in kw and src(kw["func_wrapper"]) == wrap and len(c.args) >= 3 and src(c.args[2]) == flag, f"`{src(c)[:160]}`", node=c)
+        w = ctx.fn(f"{MP}:{wrap}")
+        r = [n for n in walk_no_nested(w.node) if isinstance(n, ast.Return)]
+        ctx.ob("R-SIB", clause, w, f"pool wrapper calls the same-named method of the global model on its argument", len(r) == 1 and src(r[0].value) == f"_model.{meth}({w.params()[0]})", f"`{src(r[0].value) if r else None}`")
+        p = prog.cls(M).methods[prop]
+        probes = [n for n in walk_no_nested(p.node) if isinstance(n, ast.Call) and call_name(n) == "check_vectorised_function"]
+        ctx.ob("R-SIB", clause, p, f"vectorisation of {meth} is detected by probing {meth} itself", len(probes) == 1 and src(probes[0].args[0]) == f"self.{meth}", f"`{src(probes[0])[:80] if probes else None}`")
+        pool = kw.get("pool")
+        want_pool = "self.pool" if name == "batch_evaluate_log_likelihood" else "self.pool if self.parallelise_prior else None"
+        ctx.ob("R-SIB", clause, f, "pool selection: likelihood always uses the pool, priors only when parallelise_prior", pool is not None and src(pool) == want_pool and "n_pool" in kw and src(kw["n_pool"]) == "self.n_pool", f"pool=`{src(pool)}`")
+
+
 def run(ctx):
     prog = ctx.prog
     # ---- C10.1 counter discipline ---------------------------------------
@@ -97,26 +123,7 @@ def run(ctx):
     ctx.ob("R-SIB", "C10.3", sp, "chunking is np.array_split at multiples of the chunk size (contiguous, ordered, complete)", len(r) == 1 and canon(r[0].value) == "array_split(x, range(chunksize, len(x), chunksize))", f"`{src(r[0].value) if r else None}`")
     ctx.floor("C10.3", 10)
 
-    # ---- C10.4 function / wrapper / flag table ---------------------------------------
-    table = {
-        "batch_evaluate_log_likelihood": ("self.log_likelihood", "log_likelihood_wrapper", "self.allow_vectorised and self.vectorised_likelihood", "log_likelihood", "vectorised_likelihood"),
-        "batch_evaluate_log_prior": ("self.log_prior", "log_prior_wrapper", "self.allow_vectorised_prior and self.vectorised_prior", "log_prior", "vectorised_prior"),
-        "batch_evaluate_log_prior_unit_hypercube": ("self.log_prior_unit_hypercube", "log_prior_unit_hypercube_wrapper", "self.allow_vectorised_prior and self.vectorised_prior_unit_hypercube", "log_prior_unit_hypercube", "vectorised_prior_unit_hypercube"),
-    }
-    for name, (fn_, wrap, flag, meth, prop) in table.items():
-        f = ctx.fn(f"{M}.{name}")
-        c = FA(f).find_calls("batch_evaluate_function")[0][1]
-        kw = {k.arg: k.value for k in c.keywords}
-        ctx.ob("R-SIB", "C10.4", f, f"evaluates {fn_} with its own wrapper {wrap} and its own vectorisation flag", src(c.args[0]) == fn_ and "func_wrapper" in kw and src(kw["func_wrapper"]) == wrap and len(c.args) >= 3 and src(c.args[2]) == flag, f"`{src(c)[:160]}`", node=c)
-        w = ctx.fn(f"{MP}:{wrap}")
-        r = [n for n in walk_no_nested(w.node) if isinstance(n, ast.Return)]
-        ctx.ob("R-SIB", "C10.4", w, f"pool wrapper calls the same-named method of the global model on its argument", len(r) == 1 and src(r[0].value) == f"_model.{meth}({w.params()[0]})", f"`{src(r[0].value) if r else None}`")
-        p = prog.cls(M).methods[prop]
-        probes = [n for n in walk_no_nested(p.node) if isinstance(n, ast.Call) and call_name(n) == "check_vectorised_function"]
-        ctx.ob("R-SIB", "C10.4", p, f"vectorisation of {meth} is detected by probing {meth} itself", len(probes) == 1 and src(probes[0].args[0]) == f"self.{meth}", f"`{src(probes[0])[:80] if probes else None}`")
-        pool = kw.get("pool")
-        want_pool = "self.pool" if name == "batch_evaluate_log_likelihood" else "self.pool if self.parallelise_prior else None"
-        ctx.ob("R-SIB", "C10.4", f, "pool selection: likelihood always uses the pool, priors only when parallelise_prior", pool is not None and src(pool) == want_pool and "n_pool" in kw and src(kw["n_pool"]) == "self.n_pool", f"pool=`{src(pool)}`")
+    wrapper_table(ctx, "C10.4")
     cv = ctx.fn(MP + ":check_vectorised_function")
     from ..pat import find_stmt, find_expr
     tg = find_stmt("$$t = array([func($$e) for $$e in x], dtype=dtype)", cv.node)
